@@ -147,6 +147,8 @@ inductive Stmt
 
 inductive Err
   | uniqueRef | uniqueIK | uniqueTxId | uniqueLogId | deadlock | aborted
+  /-- 3B001: ROLLBACK TO / RELEASE of a savepoint that does not exist (an error like any other: aborts the block) -/
+  | noSavepoint
   deriving DecidableEq, Repr
 
 /-- what a statement answers to the client code -/
@@ -176,8 +178,8 @@ structure Session where
   inTx : Bool := false
   /-- 25P02: a statement failed; everything but ROLLBACK [TO] is refused -/
   aborted : Bool := false
-  /-- inside a savepoint (nested BeginTX) -/
-  sp : Bool := false
+  /-- savepoint nesting depth (nested BeginTX) -/
+  sp : Nat := 0
   /-- the pending statement's snapshot: the `getBalances` pairs that were visible when it was first issued -/
   snap : Option (List Nat) := none
   waitsFor : Option Sid := none
@@ -236,7 +238,7 @@ def World.commitTx (w : World) (s : Sid) : World :=
     spent := fun t k => if t = s then 0 else w.spent t k
     sess := fun t =>
       let x := w.sess t
-      if t = s then { x with inTx := false, aborted := false, sp := false, snap := none, waitsFor := none }
+      if t = s then { x with inTx := false, aborted := false, sp := 0, snap := none, waitsFor := none }
       else if x.waitsFor = some s then { x with waitsFor := none } else x }
 
 /-- undo the uncommitted work of `s`; `keepOuter`: keep what was acquired before
@@ -262,13 +264,13 @@ def World.setSess (w : World) (s : Sid) (f : Session → Session) : World :=
 /-- ROLLBACK of session `s` -/
 def World.rollbackTx (w : World) (s : Sid) : World :=
   ((w.undo s false).clearWaiters s).setSess s
-    (fun x => { x with inTx := false, aborted := false, sp := false, snap := none, waitsFor := none })
+    (fun x => { x with inTx := false, aborted := false, sp := 0, snap := none, waitsFor := none })
 
 /-- a statement of `s` failed: PostgreSQL aborts the (sub)transaction at once -/
 def World.failTx (w : World) (s : Sid) : World :=
   let x := w.sess s
   if x.inTx then
-    ((w.undo s x.sp).clearWaiters s).setSess s (fun x => { x with aborted := true, snap := none, waitsFor := none })
+    ((w.undo s (decide (x.sp > 0))).clearWaiters s).setSess s (fun x => { x with aborted := true, snap := none, waitsFor := none })
   else
     w.setSess s (fun x => { x with snap := none, waitsFor := none })
 
@@ -483,11 +485,14 @@ def stepR (w : World) (s : Sid) : World × StepRes :=
     | .rollback => (advance (w.rollbackTx s) s k {}, .ok)
     | .savepoint =>
       if x.aborted then (advance w s k { err := some .aborted }, .error .aborted)
-      else (advance (w.setSess s (fun x => { x with sp := true })) s k {}, .ok)
+      else (advance (w.setSess s (fun x => { x with sp := x.sp + 1 })) s k {}, .ok)
     | .release =>
       if x.aborted then (advance w s k { err := some .aborted }, .error .aborted)
-      else (advance (w.setSess s (fun x => { x with sp := false })) s k {}, .ok)
-    | .rollbackTo => (advance (w.setSess s (fun x => { x with aborted := false })) s k {}, .ok)
+      else if x.sp = 0 then (advance (w.failTx s) s k { err := some .noSavepoint }, .error .noSavepoint)
+      else (advance (w.setSess s (fun x => { x with sp := x.sp - 1 })) s k {}, .ok)
+    | .rollbackTo =>
+      if x.sp = 0 then (advance (w.failTx s) s k { err := some .noSavepoint }, .error .noSavepoint)
+      else (advance (w.setSess s (fun x => { x with aborted := false })) s k {}, .ok)
     | st =>
       if x.aborted then (advance w s k { err := some .aborted }, .error .aborted)
       else match exec w s st with
